@@ -86,6 +86,28 @@ func (w *traceWriter) close() error {
 // record generates (or reads back) the cases of a family, executes them on a
 // worker pool and writes the events: all events of one case go to one shard, in
 // order; cases are dealt round-robin to the shards.
+// genOnly writes the family's case list (one JSON object per line) and executes nothing: when several harness
+// processes share the work (-part i/n) they must all read ONE list - generators call randomised library code
+// (honest requests, signatures), so two processes do not generate byte-identical lists.
+func genOnly(f *family, c *ctx) error {
+	var cases []ev
+	f.gen(c, func(e ev) { cases = append(cases, roundTrip(e)) })
+	cf, err := os.Create(c.out)
+	if err != nil {
+		return err
+	}
+	bw := bufio.NewWriterSize(cf, 1<<20)
+	for _, cs := range cases {
+		b, _ := json.Marshal(cs)
+		bw.Write(b)
+		bw.WriteByte('\n')
+	}
+	if err := bw.Flush(); err != nil {
+		return err
+	}
+	return cf.Close()
+}
+
 func record(f *family, c *ctx) error {
 	var cases []ev
 	if c.in != "" {
